@@ -7,6 +7,7 @@ NonceF == <<1, 1, 2, 2, 3, 1, 2, 3>>
 HashF == <<1, 2, 3, 4, 5, 6, 7, 8>>
 EffF == <<1, 2, 3, 4, 5, 6, 7, 8>>
 CompassF == <<1, 1, 1, 1, 1, 2, 2, 1>>
+HeightF == <<1, 1, 2, 2, 3, 1, 2, 3>>
 ApplF == <<TRUE, TRUE, TRUE, FALSE, TRUE, TRUE, TRUE, TRUE>>
 Pow3 == <<34, 33, 33>>
 VARIABLES l, nonceOf   \* nonceOf: the observed effective cursor of every validator
@@ -24,6 +25,7 @@ Obs(o) ==
   /\ atts' = AttsOf(o)
   /\ power' = [v \in Vals |-> o.power[v]]
   /\ compass' = o.compass
+  /\ lastEth' = o.lastEth
   /\ effects' = [e \in Effects |-> o.effects[e]]
   /\ nonceOf' = [v \in Vals |-> o.nonceOf[v]]
 
@@ -73,13 +75,14 @@ TrVote == IsEvent("Vote") /\ LET e == Trace[l]  a == e.args  k == Key(a.c) IN
   /\ Conf("Vote.result", (e.res = "ok") = (Bonded(a.v) /\ CNonce[a.c] = nonceOf[a.v] + 1))
 
 TrTally == IsEvent("Tally") /\ LET e == Trace[l]  a == e.args
-                                   m == TallyFrom([last |-> last, atts |-> atts, effects |-> effects, applied |-> applied]) IN
+                                   m == TallyFrom([last |-> last, lastEth |-> lastEth, atts |-> atts, effects |-> effects, applied |-> applied]) IN
   /\ Obs(e.obs) /\ res' = e.res /\ epoch' = epoch /\ views' = views
   /\ cursor' = IF a.cu THEN [v \in Vals |-> IF cursor[v] # Unset /\ cursor[v] < last' THEN last' ELSE cursor[v]] ELSE cursor
   /\ applied' = AppendAll(applied, NewlyObserved)
   /\ Always(e)
   /\ Report("C02.CatchUpNeverLowers", \A v \in Vals : nonceOf'[v] >= nonceOf[v] \/ last' < last)
-  /\ Conf("Tally.last", last' = m.last)
+  /\ Report("C02.NonceAdvancesOnlyWithObservation", last' - last = Cardinality(NewlyObserved))
+  /\ Conf("Tally.last", last' = m.last /\ lastEth' = m.lastEth)
   /\ Conf("Tally.atts", atts' = m.atts)
   /\ Conf("Tally.effects", effects' = m.effects)
 
